@@ -393,7 +393,10 @@ UNITS += [
 
 # repair index queues the packs whose headers are re-read with the size PackHeader::from_file is given: the unit lives in C12's
 # spec (PackChecker::check_pack) and is verified as part of this check as well
-SATELLITES = [("C12", ["NodeAction", "ModifierChange", "ModifierAction", "TreeAction", "RewriteVisitor", "repair_index_check_pack"])]
+SATELLITES = [("C12", ["NodeAction", "ModifierChange", "ModifierAction", "TreeAction", "RewriteVisitor", "repair_index_check_pack"]),
+              # the repacker hands stored blobs to the packer: what it declares about them (lengths, compression) ends up in the new
+              # pack's header and index -- the units live in C02's spec (BlobCopier::copy / copy_fast, CopyPackBlobs)
+              ("C02", ["blob_constants", "BlobLocation", "BlobLocations", "from_blob_location", "can_coalesce", "append", "coalesce", "PackToDo", "RepackReason", "PackInfo", "PrunePack", "CopyPackBlobs", "RestorePackInfo", "FileLocation", "copy_pack_blobs_coalesce", "copy_fast", "copy_slow"])]
 
 KANI = [
     Harness("repofile::packfile::verif_kani::c08_bounded_header_sizes", kind="bounded",
